@@ -177,4 +177,74 @@ theorem compile_text_value_text (L W R' : Str) (opts : TemplateOptions)
   rw [htail]
   simp [Tmpl.pushElement, Tmpl.elements]
 
+/-- the same with the position table: the tag's entry is the line and column of its `{{` -/
+theorem compile_text_value_text_pos (L W R' : Str) (opts : TemplateOptions)
+    (hL : L = [] ∨ TextBeforeTag L) (hA : TextAfterTag W R') :
+    ∃ extra, compile2 (L ++ valSrc ++ (W ++ R')) opts = .ok (.mk opts.name
+      ((leftT L L).elements ++ [.expr valHT] ++ (if W ++ R' = [] then [] else [.raw (W ++ R')]))
+      ((leftT L L).mapping ++ [lineCol (L ++ valSrc ++ (W ++ R')) L.length] ++ extra)) := by
+  have hparse := parse_text_value_text L W R' hL hA
+  simp only [] at hparse
+  have hn : (L ++ valSrc ++ (W ++ R')).length = L.length + 5 + W.length + R'.length := by
+    simp [valSrc]; omega
+  have hs0 : slice? (L ++ valSrc ++ (W ++ R')) 0 L.length = some L := by
+    rw [List.append_assoc]; exact slice_prefix L _
+  have hsR : slice? (L ++ valSrc ++ (W ++ R')) (L.length + 5) (L ++ valSrc ++ (W ++ R')).length = some (W ++ R') :=
+    slice_suffix (L ++ valSrc) (W ++ R') _ (by simp [valSrc])
+  have hv : tokStr (L ++ valSrc ++ (W ++ R')) ⟨some .r_path_id, L.length + 2, L.length + 3, []⟩ = ['v'] := by
+    have : L ++ valSrc ++ (W ++ R') = (L ++ ['{', '{']) ++ ['v'] ++ (['}', '}'] ++ (W ++ R')) := by simp [valSrc]
+    rw [this]
+    exact tokStr_mid (L ++ ['{', '{']) ['v'] _ _ (by simp) (by simp)
+  generalize hsrc : L ++ valSrc ++ (W ++ R') = src at *
+  obtain ⟨m, htail⟩ := loop_tail_pos src W R' opts (3 * (rawTok 0 L.length).length + 3 * (rawTok (L.length + 5 + W.length) src.length).length + 36)
+    (L.length + 5) ((leftT L L).pushElement (.expr valHT) (lineCol src L.length).1 (lineCol src L.length).2) false hn hsR
+  refine ⟨m, ?_⟩
+  unfold compile2 compile2Inner
+  rw [hparse]
+  simp only []
+  rw [attachEscapes_noEsc _ (by
+    intro t ht
+    simp only [List.mem_cons, List.mem_append, List.not_mem_nil, or_false] at ht
+    rcases ht with rfl | ((h | rfl | rfl | rfl | rfl) | h) | rfl
+    · show ((some Rule.r_template : Option Rule) == some Rule.r_escape) = false; decide
+    · exact rawTok_rule _ _ t h
+    · show ((some Rule.r_expression : Option Rule) == some Rule.r_escape) = false; decide
+    · show ((some Rule.r_reference : Option Rule) == some Rule.r_escape) = false; decide
+    · show ((some Rule.r_path_inline : Option Rule) == some Rule.r_escape) = false; decide
+    · show ((some Rule.r_path_id : Option Rule) == some Rule.r_escape) = false; decide
+    · exact rawTok_rule _ _ t h
+    · show ((none : Option Rule) == some Rule.r_escape) = false; decide)]
+  rw [← hn]
+  simp only [List.map_cons, List.map_append, List.length_cons, List.length_append, List.length_map, List.map_nil, List.length_nil,
+    List.append_assoc, List.cons_append, List.nil_append]
+  rw [show 4 * ((rawTok 0 L.length).length + ((rawTok (L.length + 5 + W.length) src.length).length + (0 + 1) + 1 + 1 + 1 + 1) + 1) + 16
+      = ((3 * (rawTok 0 L.length).length + 3 * (rawTok (L.length + 5 + W.length) src.length).length + 36)
+          + ((rawTok (L.length + 5 + W.length) src.length).length + 2) + 1) + (1 + (rawTok 0 L.length).length) by omega]
+  rw [loop_head src L opts _ _ _ hs0]
+  obtain ⟨r0, rest, hrest, hr0⟩ := tail_head (L.length + 5) W.length src.length (by omega)
+  have hep : (if L = [] then none else some L.length : Option Nat).getD 0 = L.length := by
+    by_cases hLe : L = [] <;> simp [hLe]
+  have hstep := step_value src opts
+    (3 * (rawTok 0 L.length).length + 3 * (rawTok (L.length + 5 + W.length) src.length).length + 33
+      + ((rawTok (L.length + 5 + W.length) src.length).length + 2))
+    L.length (leftT L L) _ r0 rest hep hv hr0
+  have hloop := loop_step src opts
+    (3 * (rawTok 0 L.length).length + 3 * (rawTok (L.length + 5 + W.length) src.length).length + 33
+      + ((rawTok (L.length + 5 + W.length) src.length).length + 2) + 3) (st1 L) _
+    ⟨some .r_expression, L.length, L.length + 5, []⟩ _ _ (by unfold st1; exact hstep)
+  rw [hrest] at htail ⊢
+  simp only [plainCTok]
+  rw [show 3 * (rawTok 0 L.length).length + 3 * (rawTok (L.length + 5 + W.length) src.length).length + 36
+        + ((rawTok (L.length + 5 + W.length) src.length).length + 2) + 1
+      = 3 * (rawTok 0 L.length).length + 3 * (rawTok (L.length + 5 + W.length) src.length).length + 33
+        + ((rawTok (L.length + 5 + W.length) src.length).length + 2) + 3 + 1 by omega]
+  rw [hloop]
+  rw [show 3 * (rawTok 0 L.length).length + 3 * (rawTok (L.length + 5 + W.length) src.length).length + 33
+        + ((rawTok (L.length + 5 + W.length) src.length).length + 2) + 3
+      = 3 * (rawTok 0 L.length).length + 3 * (rawTok (L.length + 5 + W.length) src.length).length + 36
+        + ((rawTok (L.length + 5 + W.length) src.length).length + 2) by omega]
+  rw [htail]
+  simp [Tmpl.pushElement, Tmpl.elements, Tmpl.mapping]
+
+
 end Hbs.PlainText
